@@ -488,24 +488,44 @@ def measured(ctx):
                     f"7z: a {big >> 20} MiB member (above the 10 MiB per-member limit) packed with LZMA into {len(arch)} bytes"))
     except Exception as e:  # noqa
         ctx.count("measured:7z-writer-unavailable:" + type(e).__name__)
+    # the other amplifier families of the property text (declared dimensions, entities, nesting depth, OLE property
+    # vectors, PDF object loops, extreme compression ratios)
+    try:
+        from props import c12_amp
+        fam = c12_amp.all_amplifiers(ctx.tier == "quick")
+        if ctx.tier == "quick":      # the three OLE cases each run into the time limit: one of them per quick run
+            fam = [a for a in fam if not a[0].startswith("ole-property-vector-count:") or a[0].endswith(":doc")]
+        amp += fam
+    except Exception as e:  # noqa
+        ctx.obligation("amplifier-families-generated", False, repr(e))
     meas = {}
+    TLIM = ctx.n(45, 300)
     with tempfile.TemporaryDirectory(dir="/var/tmp") as td:
         wp = os.path.join(td, "worker.py")
         open(wp, "w").write(WORKER)
-        for key, name, data, what in amp:
-            fp = os.path.join(td, name)
+
+        def one(job):
+            j, (key, name, data, what) = job
+            os.makedirs(os.path.join(td, str(j)), exist_ok=True)
+            fp = os.path.join(td, str(j), name)
             open(fp, "wb").write(data)
 
             def lim():
                 resource.setrlimit(resource.RLIMIT_AS, (6 * 2 ** 30, 6 * 2 ** 30))
             try:
                 p = subprocess.run(["/venv/bin/python", wp, str(common.REPO), name, fp], capture_output=True, text=True,
-                                   timeout=300, preexec_fn=lim)
+                                   timeout=TLIM, preexec_fn=lim)
                 m = json.loads(p.stdout.strip().splitlines()[-1])
+            except subprocess.TimeoutExpired:
+                m = {"out": "time-limit", "secs": TLIM, "rss_kb_before": 0, "rss_kb_after": 0, "in": len(data)}
             except Exception as e:  # noqa
-                m = {"out": "worker-failed:" + type(e).__name__, "secs": 300, "rss_kb_before": 0, "rss_kb_after": 0, "in": len(data)}
-            meas[key] = m
-            ctx.case(("amplifier", key), True, kind="measured:" + key)
+                m = {"out": "worker-failed:" + type(e).__name__, "secs": TLIM, "rss_kb_before": 0, "rss_kb_after": 0, "in": len(data)}
+            return key, m
+        from concurrent.futures import ThreadPoolExecutor
+        with ThreadPoolExecutor(max_workers=5) as ex:
+            for key, m in ex.map(one, list(enumerate(amp))):
+                meas[key] = m
+                ctx.case(("amplifier", key), True, kind="measured:" + key.split("#")[0])
     base = meas.get("ods-baseline", {})
     ctx.extra["measured"] = meas
     for key, name, data, what in amp:
@@ -514,8 +534,13 @@ def measured(ctx):
         m = meas[key]
         delta_kb = max(0, m["rss_kb_after"] - max(base.get("rss_kb_after", 0), m["rss_kb_before"]))
         ratio = delta_kb * 1024 / max(1, m["in"])
-        if ratio > 200 or m["out"] in ("MemoryError",) or m["out"].startswith("worker-failed"):
-            ctx.finding(key, f"{what}: a {m['in']}-byte input needed ~{delta_kb // 1024} MiB additional memory "
+        # run time: more than 30 s (or the time limit) for an input below 1 MB is far outside any fixed multiple of the
+        # time a same-size benign file takes (milliseconds)
+        too_slow = m["out"] == "time-limit" or (m["secs"] > 30 and m["in"] < 1_000_000)
+        # memory: additive constants (module imports, parser tables: a few MiB) are not amplification - the test is a
+        # large multiple of the input size AND at least 48 MiB in absolute terms
+        if (ratio > 200 and delta_kb > 48 * 1024) or m["out"] in ("MemoryError",) or m["out"].startswith("worker-failed") or too_slow:
+            ctx.finding(key.split("#")[0], f"{what}: a {m['in']}-byte input needed ~{delta_kb // 1024} MiB additional memory "
                         f"(x{int(ratio)} of the input size; outcome {m['out']}, {m['secs']:.1f}s) — cost is not bounded by a fixed "
                         f"multiple of the input size", {"input": data, "measurement": m, "file_name": name})
 
